@@ -7,6 +7,7 @@
 
 mod common;
 mod g_escape;
+mod g_hashable;
 mod g_quote;
 mod g_token;
 
@@ -26,6 +27,7 @@ fn main() {
             "token" => g_token::generate(repo),
             "escape" => g_escape::generate(repo),
             "quote" => g_quote::generate(repo),
+            "hashable" => g_hashable::generate(repo),
             _ => Err(format!("unknown group {g}")),
         };
         match r {
